@@ -91,8 +91,16 @@ def build_all(verbose=False):
         if rc != 0:
             raise BuildError("go build gen", log)
         new = os.path.join(BUILD, "Generated.v.new")
-        rc, log = sh([os.path.join(BUILD, "gen"), os.path.join(REPO, "src"), new])
+        rc, log = sh([os.path.join(BUILD, "gen"), os.path.join(REPO, "src"), new,
+                      os.path.join(VERIF, "gen", "reference", "Generated.v")])
         target = os.path.join(COQ, "theories", "Gen", "Generated.v")
+        # tables the translator could not extract from the current source (it then emits the reference
+        # table of the pinned tree): the properties tied to them report the lost tie (framework.TABLE_PROPS)
+        info["gen_missing"] = []
+        try:
+            info["gen_missing"] = json.load(open(new + ".status.json")).get("missing", []) if rc == 0 else []
+        except Exception:
+            pass
         if rc != 0:
             # a source shape the translator does not recognise: a broken obligation, not silently skipped
             info["coq_ok"] = False
